@@ -237,6 +237,11 @@ def check_from_tk_bits(ctx, fn):
     ctx.need(loop is not None, "from_tk has no loop over the commands")
     meas = next((s for s in loop.body if isinstance(s, ast.If) and "Measure" in ast.unparse(s.test)), None)
     ctx.need(meas is not None, "from_tk does not treat Measure commands")
+    gv = loop.target.id if isinstance(loop.target, ast.Name) else "tk_gate"
+    shape.match_stmts(ctx, "R13.9", TK + ".from_tk:measure", [s for s in meas.body if isinstance(s, ast.Assign) and isinstance(s.targets[0], ast.Name) and s.targets[0].id in ("offset", "bit_index")] +
+                      [s for s in meas.body if isinstance(s, ast.If) and "post_selection" in ast.unparse(s.test)],
+                      ["offset = tk_gate.qubits[0].index[0]", "bit_index = tk_gate.bits[0].index[0]", "if bit_index in tk_circuit.post_selection:\n    bras[offset] = tk_circuit.post_selection[bit_index]\n    continue"],
+                      {gv: "tk_gate", tkc_: "tk_circuit"}, mod=TK, node=meas, sig="from-tk-measure", required="a measurement into a post-selected bit becomes the effect with the recorded value ON THE QUBIT MEASURED (its wire)")
     var = next((s.targets[0].id for s in meas.body if isinstance(s, ast.Assign) and isinstance(s.targets[0], ast.Name) and ".bits[0].index[0]" in ast.unparse(s.value)), None)
     ctx.need(var is not None, "from_tk does not read the bit of a Measure command")
     ps = next((s for s in meas.body if isinstance(s, ast.If) and "post_selection" in ast.unparse(s.test)), None)
